@@ -2,12 +2,16 @@
    judges the observed behaviour with the boolean specification (proved to reflect the Prop-level
    statement in proofs/C12_proofs.v). *)
 From Coq Require Import NArith List Ascii String Bool.
-From AV Require Import lib.Str lib.Md5 lib.SortPerm model.C12_model.
+From AV Require Import lib.Str lib.Md5 lib.SortPerm model.KC_discover model.C12_model.
 Import ListNotations.
 Local Open Scope string_scope.
 
 Record case := {
   c_hash : string;                 (* 32 hex digits *)
+  c_lists : list (list dsvc);      (* discovery stratum: the keep_services lists the client was given, one after the
+                                      other (LoadKeepServicesFromJSON); [] = the roots were set with SetServiceRoots.
+                                      With lists, c_local / c_writable / c_gw are what kc.LocalRoots(),
+                                      kc.WritableLocalRoots() and kc.GatewayRoots() returned after the last load *)
   c_local : list svc;              (* local services in the order Go's map iteration produced them *)
   c_writable : list bool;          (* per local service: offered for writes *)
   c_keep : list bool;              (* per local service: kept in the "one service removed/added" variant *)
@@ -67,7 +71,27 @@ Definition order_ok_b (t : wtab) (svcs : list svc) (out : list string) : bool :=
 Definition bal_svcs (svcs : list svc) := map (fun s => {| uuid := uuid s; root := uuid s |}) svcs.
 Definition in_roots (svcs : list svc) (r : string) : bool := existsb (String.eqb r) (map root svcs).
 
-Definition spec_b (c : case) : bool :=
+(* a uuid -> root map of the client as pairs *)
+Definition pairs_of (l : list svc) : smap := map (fun s => (uuid s, root s)) l.
+
+(* discovery stratum: the maps the client ended up with satisfy the roots specification of the last list
+   (model/KC_discover.v: local = the listed services, writable = those not read-only, gateway has every listed
+   service — so a +K@uuid hint naming any listed service is usable) *)
+Definition disc_spec_b (c : case) : bool :=
+  match c_lists c with
+  | [] => true
+  | ls => roots_spec_b (current_list ls) (pairs_of (c_local c)) (pairs_of (mask (c_writable c) (c_local c))) (pairs_of (c_gw c))
+  end.
+Definition disc_model_b (c : case) : bool :=
+  match c_lists c with
+  | [] => true
+  | ls => let m := k_roots (load_all kstate0 ls) in
+          smap_eqb (pairs_of (c_local c)) (r_local m) &&
+          smap_eqb (pairs_of (mask (c_writable c) (c_local c))) (r_writable m) &&
+          smap_eqb (pairs_of (c_gw c)) (r_gateway m)
+  end.
+
+Definition order_spec_b (c : case) : bool :=
   let t := mk_wtab (c_hash c) (c_local c) in
   let distinct := nodupb (map snd t) in
   let hints := hint_roots (c_gw c) (c_loc c) in
@@ -89,7 +113,9 @@ Definition spec_b (c : case) : bool :=
   list_str_eqb (firstn nh (o_getreq c)) hints &&
   order_ok_b t (c_local c) (skipn nh (o_getreq c)).
 
-Definition model_b (c : case) : bool :=
+Definition spec_b (c : case) : bool := disc_spec_b c && order_spec_b c.
+
+Definition order_model_b (c : case) : bool :=
   let t := mk_wtab (c_hash c) (c_local c) in
   let distinct := nodupb (map snd t) in
   let hints := hint_roots (c_gw c) (c_loc c) in
@@ -101,6 +127,8 @@ Definition model_b (c : case) : bool :=
    list_str_eqb (o_get c) (hints ++ m_sorted) &&
    list_str_eqb (o_getreq c) (hints ++ m_sorted) &&
    list_str_eqb (o_putreq c) (map root (sorted_t t (mask (c_writable c) (c_local c))))).
+
+Definition model_b (c : case) : bool := disc_model_b c && order_model_b c.
 
 (* result code per case: 0 ok; +1 model/implementation mismatch; +2 observed behaviour violates the spec *)
 Definition check_case (c : case) : N :=
